@@ -22,6 +22,7 @@ class C12(FCheck):
     prop = "C12"
     level = "exploration"
     default_seed = 12012
+    ustep_rate = 0.35
     N = {"quick": 100, "thorough": 2500}
     PER_CASE = {"quick": 12, "thorough": 400}
     PAIRS = {"quick": 0, "thorough": 0}
